@@ -22,6 +22,7 @@ pub enum AOp {
     SheetProtection { sheet: usize, flags: u32, hash: String, salt: String },
     BookProtection { lock_structure: bool, lock_windows: bool, lock_revision: bool, hash: String, salt: String },
     BookDefinedName { name: String, address: String },
+    BookProps { title: String, creator: String, company: String, custom_name: String, custom_value: String },
 }
 
 fn sheet_mut(book: &mut Spreadsheet, sheet: usize) -> Option<&mut umya::Worksheet> {
@@ -244,6 +245,16 @@ pub fn apply(book: &mut Spreadsheet, op: &AOp) -> bool {
             }
             Some(())
         }
+        AOp::BookProps { title, creator, company, custom_name, custom_value } => {
+            let p = book.get_properties_mut();
+            p.set_title(title.clone()).set_creator(creator.clone()).set_company(company.clone());
+            if !custom_name.is_empty() {
+                let mut c = umya::structs::custom_properties::CustomDocumentProperty::default();
+                c.set_name(custom_name.clone()).set_value_string(custom_value.clone());
+                p.get_custom_properties_mut().add_custom_document_property_list(c);
+            }
+            Some(())
+        }
         AOp::BookDefinedName { name, address } => {
             let mut d = DefinedName::default();
             // set_name is crate-private: go through a worksheet-scoped add and move it
@@ -396,6 +407,13 @@ pub fn gen_aop(rng: &mut Rng, sheets: usize, alpha: usize, tag: &str, w: &[u32; 
         7 => AOp::HeaderFooter { sheet, header: format!("&L{}h{}&R&P", tag, special_text(rng, alpha)), footer: format!("&C{}f{}", tag, special_text(rng, alpha)) },
         8 => AOp::SheetProtection { sheet, flags: rng.below(32768) as u32, hash: if rng.chance(1, 2) { "q83KDXn0r3gMRZ3KNYQ8Fy9mJ8gX0mQYQ5o6s0wQmY4=".to_string() } else { String::new() }, salt: "c2FsdHNhbHRzYWx0c2FsdA==".to_string() },
         9 => AOp::BookProtection { lock_structure: rng.chance(1, 2), lock_windows: rng.chance(1, 2), lock_revision: rng.chance(1, 4), hash: if rng.chance(1, 2) { "aGFzaGhhc2hoYXNoaGFzaA==".to_string() } else { String::new() }, salt: "c2FsdHNhbHRzYWx0c2FsdA==".to_string() },
+        _ if rng.chance(1, 4) => AOp::BookProps {
+            title: format!("{}title{}", tag, special_text(rng, alpha)),
+            creator: format!("cr{}", special_text(rng, alpha)),
+            company: if rng.chance(1, 2) { format!("R&D <{}>", rng.below(9)) } else { String::new() },
+            custom_name: if rng.chance(1, 2) { format!("prop_{}", tag.replace(|c: char| !c.is_ascii_alphanumeric(), "_")) } else { String::new() },
+            custom_value: format!("v{}", special_text(rng, alpha)),
+        },
         _ => AOp::BookDefinedName { name: format!("bn_{}_{}", tag.replace(|c: char| !c.is_ascii_alphanumeric(), "_"), rng.below(100)), address: format!("Sheet1!$B${}", 1 + rng.below(9)) },
     }
 }
